@@ -27,6 +27,10 @@ FORCED = {0: {"ncomps": 1, "multi_slash": True, "nested": False, "cargo_toml": N
           5: {"ncomps": 1, "multi_slash": False, "nested": False, "cargo_toml": None, "zero_dep": 0}}
 
 
+OTHER_DEPS = ["docker://docker.io/heroku/procfile-cnb:2.0.1", "../../vendor/other-bp", "./sub/../local-bp", "urn:cnb:registry:heroku/nodejs@1.2.3", "/abs/elsewhere",
+              "/abs/vendor/current/../bash-bp", "docker://Docker.IO/Heroku/Example:1.2.3", "https://example.com/%7Euser/a/./b.cnb"]
+
+
 def gen_workspace(r, widx):
     """-> description dict"""
     force = FORCED.get(widx, {})
@@ -54,10 +58,21 @@ def gen_workspace(r, widx):
             deps = ["../../vendor/other-bp"]
         elif "zero_dep" in force and not deps:
             deps.append("libcnb:" + pool[0]["id"])
-        for _ in range(r.choice([0, 1, 2]) if deps else r.choice([1, 2])):
-            deps.append(r.choice(["docker://docker.io/heroku/procfile-cnb:2.0.1", "../../vendor/other-bp", "./sub/../local-bp", "urn:cnb:registry:heroku/nodejs@1.2.3", "/abs/elsewhere",
-                                  "/abs/vendor/current/../bash-bp", "docker://Docker.IO/Heroku/Example:1.2.3", "https://example.com/%7Euser/a/./b.cnb"]))      # copied verbatim
-        r.shuffle(deps)
+        if force and force.get("zero_dep") != j:
+            # the covering workspaces: the other dependencies rotate through the whole list (three per composite), and they are interleaved with
+            # the libcnb: ones so that a libcnb: dependency follows a path / image dependency
+            extras = [OTHER_DEPS[(widx * 5 + j * 3 + k) % len(OTHER_DEPS)] for k in range(3)]
+            lib = list(deps)
+            deps = []
+            while lib or extras:
+                if extras:
+                    deps.append(extras.pop(0))
+                if lib:
+                    deps.append(lib.pop(0))
+        else:
+            for _ in range(r.choice([0, 1, 2]) if deps else r.choice([1, 2])):
+                deps.append(r.choice(OTHER_DEPS))      # copied verbatim
+            r.shuffle(deps)
         comps.append({"kind": "composite", "id": "meta/comp%d" % j, "dir": "meta/comp%d" % j, "deps": deps, "os": r.choice([None, "linux", "windows", "windows"]),
                       "bp_uri": r.choice([".", ".", "./"])})
     # nested layout: move some libcnb buildpacks beneath a composite's directory (dependencies of it or not)
